@@ -61,6 +61,8 @@ type Prop struct {
 	Serial bool
 	// Prepare is called with the case file before replay (e.g. to read header cases)
 	Prepare func(path string)
+	// Finish is called after the last case was replayed
+	Finish func()
 }
 
 var registry = map[string]*Prop{}
@@ -156,6 +158,9 @@ func replayMain(p *Prop, casesPath, sumPath string) {
 	}
 	close(ch)
 	wg.Wait()
+	if p.Finish != nil {
+		p.Finish()
+	}
 	out, _ := json.Marshal(sum)
 	if err := os.WriteFile(sumPath, out, 0644); err != nil {
 		fatal("write summary: %v", err)
